@@ -54,3 +54,14 @@ package sender
 //@ assumed
 //@ opaque
 //@ ensures result1 == nil ==> result0 != nil
+
+// The worker loop (C12: every submission taken from the queue is processed exactly once and its completion
+// is handed back exactly once; the loop ends only when the queue is closed). Callees are abstracted: they
+// are units of their own.
+//@ func (*SenderWorker).Start
+//@ props C12
+//@ abstract-calls .*
+//@ requires w != nil
+//@ site call Process assert caller_sqe == sqe
+//@ site loop 1 backedge assert itercalls("Process") == 1
+//@ site return assert !ok
